@@ -437,6 +437,13 @@ func (x *exporter) expr(e ast.Expression) J {
 				return J{"k": "std", "t": t}
 			}
 		}
+		if e.Operator == ast.TYPE_SIZE {
+			t, ok := x.typ(e.Rhs)
+			if ok {
+				x.feat["groesse"] = true
+				return J{"k": "size", "t": t}
+			}
+		}
 		return x.unsupE("typeop:" + e.Operator.String())
 	case *ast.TypeCheck:
 		t, ok := x.typ(e.CheckType)
